@@ -318,6 +318,23 @@ Theorem C11_has_none_or_one_of_any_order :
   forall ks ks' m, Permutation.Permutation ks ks' -> msg_has_none_or_one_of ks m = msg_has_none_or_one_of ks' m.
 Proof. exact msg_has_none_or_one_of_perm. Qed.
 Print Assumptions C11_has_none_or_one_of_any_order.
+
+(* TIE BY TRANSLATION: Message.has_none_or_one_of and the Message.__contains__ behind its `c in self`, as they read in
+   /repo/src NOW (coq/Gen/Src_msg.v, regenerated by harness/py2v.py on every run), compute the model's helper: for
+   every message (injected as the object whose `_dict` is the model's parameter list) and every list of names the
+   translated method returns exactly msg_has_none_or_one_of - the function the four theorems above are about.  A
+   change of the loop (a flag that no longer latches, `return True` inside the loop, another container behind `in`)
+   breaks this statement on the next run. *)
+From Verif Require Lib.PyOps Gen.Src_msg Proofs.Src_refine_msg.
+Theorem C11_contains_is_source : forall m k clock,
+  Src_msg.Message_contains_src (Src_refine_msg.inject_msg m) (VStr k) clock = Ok (VBool (has_key k m)).
+Proof. exact Src_refine_msg.contains_refines. Qed.
+Print Assumptions C11_contains_is_source.
+Theorem C11_has_none_or_one_of_is_source : forall m claims clock,
+  Src_msg.Message_has_none_or_one_of_src (Src_refine_msg.inject_msg m) (VList (List.map VStr claims)) clock
+  = Ok (VBool (msg_has_none_or_one_of claims m)).
+Proof. exact Src_refine_msg.has_none_or_one_of_refines. Qed.
+Print Assumptions C11_has_none_or_one_of_is_source.
 (* the predicates the other classes' set rules are stated with *)
 Theorem C11_set_predicates :
   forall l,
@@ -655,3 +672,232 @@ Example C11_ciba_nonvacuous :
      | _, _, _ => False
      end.
 Proof. vm_compute. repeat split; try reflexivity. left. reflexivity. Qed.
+
+(* --- round 11: reserved verified members --- *)
+(* The verifier's own bookkeeping (Model/MsgVerified.v): verify() stores the content of an embedded signed object
+   under the reserved member `__verified_<claim>` (idpyoidc.verified_claim_name) for the code that runs after it.  A
+   message may already hold such a member when it is presented - written into the wire form by the peer, or left by
+   an earlier verify() whose raw claim has since been removed / damaged / replaced.  The sentence "an embedded
+   signed object is accepted only with a valid signature" is about the message as it stands AFTER verification:
+   what it then holds under a reserved name is the content of an object whose signature THIS verification checked,
+   or nothing - for every initial content of the reserved member (the statements quantify over every message with
+   distinct keys, `dict_like`).  Tied to the code by the driver's reserved-member matrix (every discovered embedding
+   class x reserved name x delivery form x {absent, forged, stale} x raw claim {absent, valid, signature altered,
+   replaced}), whose rows also run through these functions (kinds v_idt, v_esr, v_request, v_ciba, v_bclogout,
+   v_authz; the older kinds request, ciba, authz run through the clear-first functions as well). *)
+From Verif Require Import Model.MsgVerified Proofs.MsgVerified_proofs.
+
+(* one verified-copy slot, abstractly: drop the old copy first thing, then rebuild from the signed claim *)
+Theorem C11_verified_copy_always_clear :
+  forall claim est m m', dict_like m = true -> book ClearAlways claim est m = Ok m' ->
+  copy_established claim est m m'.
+Proof. exact book_always_established. Qed.
+Print Assumptions C11_verified_copy_always_clear.
+
+Theorem C11_verified_copy_absent_raw_claim :
+  forall claim est m m', dict_like m = true -> has_key claim m = false -> book ClearAlways claim est m = Ok m' ->
+  assoc (verified_name claim) m' = None.
+Proof. exact book_always_absent. Qed.
+Print Assumptions C11_verified_copy_absent_raw_claim.
+
+(* dropping the old copy only next to the raw claim, or never (FALSE of the property: a member that arrives
+   without the raw claim is accepted as it is) *)
+Theorem C11_verified_copy_lazy_refuted :
+  forall cl claim est v, cl <> ClearAlways ->
+  let m := [(verified_name claim, v)] in
+  book cl claim est m = Ok m /\ ~ copy_established claim est m m.
+Proof. exact book_lazy_keeps. Qed.
+Print Assumptions C11_verified_copy_lazy_refuted.
+
+(* oidc.AccessTokenResponse.verify, oidc.AuthorizationResponse.verify, session.EndSessionRequest.verify: raw claim
+   absent => no verified copy; present => the copy is the content of a token whose signature verified; no copy
+   under the two other reserved names *)
+Theorem C11_AccessTokenResponse_verified_copy :
+  forall lh issuers c ic now kw t m b m',
+  dict_like m = true -> oidc_tokenresp_verify_idt lh issuers c ic now kw t m = Ok (b, m') ->
+  b = true /\ id_token_copy_ok ic t "id_token" verified_id_token m m'
+  /\ assoc verified_id_token_hint m' = None /\ assoc verified_request m' = None.
+Proof. exact tokenresp_verified_copy. Qed.
+Print Assumptions C11_AccessTokenResponse_verified_copy.
+
+Theorem C11_AuthorizationResponse_verified_copy :
+  forall lh issuers c ic now kw t m m',
+  dict_like m = true -> oidc_authzresp_verify_idt lh issuers c ic now kw t m = Ok (true, m') ->
+  id_token_copy_ok ic t "id_token" verified_id_token m m'
+  /\ assoc verified_id_token_hint m' = None /\ assoc verified_request m' = None.
+Proof. exact authzresp_verified_copy. Qed.
+Print Assumptions C11_AuthorizationResponse_verified_copy.
+
+Theorem C11_AuthorizationResponse_not_for_me_no_copy :
+  forall lh issuers c ic now kw t m m',
+  dict_like m = true -> oidc_authzresp_verify_idt lh issuers c ic now kw t m = Ok (false, m') ->
+  assoc verified_id_token m' = None.
+Proof. exact authzresp_false_no_copy. Qed.
+Print Assumptions C11_AuthorizationResponse_not_for_me_no_copy.
+
+Theorem C11_EndSessionRequest_verified_copy :
+  forall issuers c ic now kw t m m',
+  dict_like m = true -> endsession_verify_hint issuers c ic now kw t m = Ok (true, m') ->
+  id_token_copy_ok ic t "id_token_hint" verified_id_token_hint m m'
+  /\ assoc verified_id_token m' = None /\ assoc verified_request m' = None.
+Proof. exact endsession_verified_copy. Qed.
+Print Assumptions C11_EndSessionRequest_verified_copy.
+
+(* the function with the id_token_hint answers what the one without (C11_EndSessionRequest_accepts_only) answers *)
+Theorem C11_EndSessionRequest_hint_extends :
+  forall issuers c ic now kw t m, has "id_token_hint" m = false ->
+  match endsession_verify c m with
+  | Ok b => exists m', endsession_verify_hint issuers c ic now kw t m = Ok (b, m')
+  | Err e => endsession_verify_hint issuers c ic now kw t m = Err e
+  | Unmodelled => True
+  end.
+Proof. exact endsession_hint_extends. Qed.
+Print Assumptions C11_EndSessionRequest_hint_extends.
+
+(* ---- the four request classes.  Since the repairs that followed this round their verify() drops the reserved
+   members before anything is unpacked and cleans the UNPACKED request object of reserved claims before it is merged
+   (oauth2.drop_verified_copies); Model/MsgVerified.v jar_verify_v / par_verify_v / authz_verify_v /
+   ciba_authn_verify_v transcribe that, the bodies of Model/Msg.v / Model/MsgRules.v (jar_verify ...) are what they
+   do on a message without reserved members and an object without reserved claims ---- *)
+Theorem C11_JAR_verified_copy :
+  forall c roc payload m m', dict_like m = true -> jar_verify_v c roc payload m = Ok m' ->
+  (has_key (PS "request") m = false -> assoc verified_request m' = None)
+  /\ (has_key (PS "request") m = true ->
+      exists p ro0, payload = Some p /\ construct roc p = Ok ro0
+                    /\ assoc verified_request m' = Some (VObj (drop_verified_copies ro0))).
+Proof. exact jar_v_verified_copy. Qed.
+Print Assumptions C11_JAR_verified_copy.
+
+Theorem C11_PAR_verified_copy :
+  forall c roc payload m m', dict_like m = true -> par_verify_v c roc payload m = Ok m' ->
+  (has_key (PS "request") m = false -> assoc verified_request m' = None)
+  /\ (has_key (PS "request") m = true ->
+      exists p ro0, payload = Some p /\ construct roc p = Ok ro0
+                    /\ assoc verified_request m' = Some (VObj (drop_verified_copies ro0))).
+Proof. exact par_v_verified_copy. Qed.
+Print Assumptions C11_PAR_verified_copy.
+
+(* a reserved name delivered as a CLAIM OF THE SIGNED REQUEST OBJECT never reaches the message: after the strict
+   merge (JAR) the message holds no reserved member but the copy, after the lax merge (PAR) the others are what
+   the message presented held *)
+Theorem C11_request_object_claims_not_merged :
+  forall strict c roc payload m m' k, is_reserved k = true -> k <> verified_request ->
+  unpack_request_v strict c roc payload m = Ok m' ->
+  assoc k m' = if strict then None else assoc k (adel verified_request m).
+Proof. exact request_object_claims_not_merged. Qed.
+Print Assumptions C11_request_object_claims_not_merged.
+
+(* what C11_JAR_verify / C11_PAR_verify / C11_AuthorizationRequest_verify state of the bodies holds of verify() *)
+Theorem C11_JAR_verify_whole :
+  forall c roc payload m m', jar_verify_v c roc payload m = Ok m' -> schema_ok c m' = true.
+Proof. exact jar_v_sound. Qed.
+Print Assumptions C11_JAR_verify_whole.
+
+Theorem C11_PAR_verify_whole :
+  forall c roc payload m m', par_verify_v c roc payload m = Ok m' -> schema_ok c m' = true.
+Proof. exact par_v_sound. Qed.
+Print Assumptions C11_PAR_verify_whole.
+
+Theorem C11_JAR_verify_is_body :
+  forall c roc payload m, assoc verified_request m = None ->
+  (forall p ro0, payload = Some p -> construct roc p = Ok ro0 -> no_reserved ro0 = true) ->
+  jar_verify_v c roc payload m = jar_verify c roc payload m.
+Proof. exact jar_v_is_body. Qed.
+Print Assumptions C11_JAR_verify_is_body.
+
+Theorem C11_PAR_verify_is_body :
+  forall c roc payload m, assoc verified_request m = None ->
+  (forall p ro0, payload = Some p -> construct roc p = Ok ro0 -> no_reserved ro0 = true) ->
+  par_verify_v c roc payload m = par_verify c roc payload m.
+Proof. exact par_v_is_body. Qed.
+Print Assumptions C11_PAR_verify_is_body.
+
+Theorem C11_AuthorizationRequest_verify_whole :
+  forall c nonce m m', find_param verified_request (c_params c) = None ->
+  authz_verify_v c nonce m = Ok m' -> schema_ok c m' = true /\ authz_rules nonce m' = Ok tt.
+Proof. exact authz_v_sound. Qed.
+Print Assumptions C11_AuthorizationRequest_verify_whole.
+
+Theorem C11_AuthorizationRequest_no_verified_copy :
+  forall c nonce m m', dict_like m = true -> authz_verify_v c nonce m = Ok m' ->
+  assoc verified_request m' = None /\ assoc verified_id_token_hint m' = None /\ assoc verified_id_token m' = None.
+Proof. exact authz_v_no_copy. Qed.
+Print Assumptions C11_AuthorizationRequest_no_verified_copy.
+
+(* the CIBA AuthenticationRequest: whatever the message holds under the three reserved names afterwards is what THIS
+   verification unpacked - the request object handed over (without its reserved claims), the id_token_hint handed
+   over, nothing - for every initial content of the members and every claim the request object carries *)
+Theorem C11_CIBA_verified_copies :
+  forall c rjc ic kw rt ht m m',
+  dict_like m = true -> ciba_authn_verify_v c rjc ic kw rt ht m = Ok m' ->
+  assoc verified_id_token m' = None
+  /\ match assoc verified_id_token_hint m' with
+     | None => True
+     | Some v => exists hp o, open_token ht = Ok hp /\ construct ic (snd hp) = Ok o /\ v = VObj o
+     end
+  /\ match assoc verified_request m' with
+     | None => has "request" m = false
+     | Some v => has "request" m = true
+                 /\ exists hp ro0, open_token rt = Ok hp /\ construct rjc (snd hp) = Ok ro0 /\ v = VObj (drop_verified_copies ro0)
+     end.
+Proof. exact ciba_v_copies. Qed.
+Print Assumptions C11_CIBA_verified_copies.
+
+Theorem C11_CIBA_verify_is_body :
+  forall c rjc ic kw rt ht m,
+  assoc verified_id_token m = None -> assoc verified_id_token_hint m = None -> assoc verified_request m = None ->
+  (forall hp ro0, open_token rt = Ok hp -> construct rjc (snd hp) = Ok ro0 -> no_reserved ro0 = true) ->
+  ciba_authn_verify_v c rjc ic kw rt ht m = ciba_authn_verify c rjc ic kw rt ht m.
+Proof. exact ciba_v_is_body. Qed.
+Print Assumptions C11_CIBA_verify_is_body.
+
+(* the bodies alone (the whole verify() until 834e726; FALSE of the property - the repaired findings
+   verified-copy:unverified-kept of the request classes): without the raw claim an accepted message comes out
+   unchanged, with whatever it held under the reserved names *)
+Theorem C11_request_bodies_keep_unverified :
+  (forall c roc payload m m', has_key (PS "request") m = false -> jar_verify c roc payload m = Ok m' -> m' = m)
+  /\ (forall c roc payload m m', has_key (PS "request") m = false -> par_verify c roc payload m = Ok m' -> m' = m)
+  /\ (forall c rjc ic kw rt ht m m', has "request" m = false -> get "id_token_hint" m = None ->
+      ciba_authn_verify c rjc ic kw rt ht m = Ok m' -> m' = m).
+Proof. exact (conj jar_keeps_unverified (conj par_keeps_unverified ciba_keeps_unverified)). Qed.
+Print Assumptions C11_request_bodies_keep_unverified.
+
+(* over the regenerated table: a forged member without the raw claim is gone after an accepting verify() of the
+   token response, the authorization response and the logout request; next to a signed token it is replaced by the
+   token's content; a stale object likewise; the JAR class drops it too (its body alone would keep it) *)
+Definition esr_class : pystr := PS "idpyoidc.message.oidc.session.EndSessionRequest".
+Definition vx_forged : pyval := VDict [(PS "iss", VStr (PS "https://op.example")); (PS "sub", VStr (PS "victim"))].
+Definition vx_stale : pyval := VObj [(PS "iss", VStr (PS "https://op.example")); (PS "sub", VStr (PS "earlier"))].
+Definition vx_tok : token := TJws SigValid (PS "RS256") (hx_claims None None).
+Example C11_verified_members_nonvacuous :
+  match find_class azr_class all_classes, find_class atr_class all_classes, find_class idt_class all_classes,
+        find_class esr_class all_classes, find_class jar_class all_classes, find_class ro_class all_classes with
+  | Some c, Some tc, Some ic, Some ec, Some jc, Some roc =>
+      let iss := [PS "https://op.example"] in
+      let tresp := [(PS "access_token", VStr (PS "TOKEN")); (PS "token_type", VStr (PS "Bearer"))] in
+      let trun t m := oidc_tokenresp_verify_idt (lhash_of hx_tbl) iss tc ic 1700000000 hx_kw t m in
+      let arun t m := oidc_authzresp_verify_idt (lhash_of hx_tbl) iss c ic 1700000000 hx_kw t m in
+      let erun t m := endsession_verify_hint iss ec ic 1700000000 hx_kw t m in
+      find_param verified_id_token (c_params tc) = None /\ find_param verified_id_token_hint (c_params ec) = None
+      (* forged, no raw claim: accepted, the member is gone *)
+      /\ trun TJunk (tresp ++ [(verified_id_token, vx_forged)])%list = Ok (true, tresp)
+      /\ arun TJunk [(PS "state", VStr (PS "st")); (verified_id_token, vx_forged)] = Ok (true, [(PS "state", VStr (PS "st"))])
+      /\ erun TJunk [(PS "state", VStr (PS "st")); (verified_id_token_hint, vx_forged)] = Ok (true, [(PS "state", VStr (PS "st"))])
+      (* forged / stale next to a signed token: replaced by the token's content *)
+      /\ (exists o, construct ic (hx_claims None None) = Ok o
+          /\ trun vx_tok ((verified_id_token, vx_stale) :: tresp ++ [(PS "id_token", VStr (PS "eyJ.eyJ.sig"))])%list
+             = Ok (true, (tresp ++ [(PS "id_token", VStr (PS "eyJ.eyJ.sig")); (verified_id_token, VObj o)])%list)
+          /\ erun vx_tok [(verified_id_token_hint, vx_forged); (PS "id_token_hint", VStr (PS "eyJ.eyJ.sig"))]
+             = Ok (true, [(PS "id_token_hint", VStr (PS "eyJ.eyJ.sig")); (verified_id_token_hint, VObj o)]))
+      (* the JAR class without `request`: the forged member is dropped by verify(), kept by the body alone *)
+      /\ (let m := [(PS "response_type", VList [VStr (PS "code")]); (PS "client_id", VStr (PS "c"));
+                    (PS "request_uri", VStr (PS "https://rp/ro")); (verified_request, vx_forged)] in
+          jar_verify_v jc roc None m = Ok (adel verified_request m) /\ jar_verify jc roc None m = Ok m)
+      (* the reserved name as a claim of the signed request object: not merged, not in the stored copy *)
+      /\ (let obj := (ro_full ++ [(verified_id_token_hint, vx_forged)])%list in
+          jar_verify_v jc roc (Some obj) jar_outer = jar_verify_v jc roc (Some ro_full) jar_outer
+          /\ exists m', jar_verify jc roc (Some obj) jar_outer = Ok m' /\ assoc verified_id_token_hint m' = Some vx_forged)
+  | _, _, _, _, _, _ => False
+  end.
+Proof. vm_compute. repeat split; try reflexivity. all: eexists; repeat split; reflexivity. Qed.
+(* --- end round 11 --- *)
